@@ -24,7 +24,10 @@ var (
 	gen *config.PrometheusGenerator
 )
 
-func setup(string) {
+var tier string
+
+func setup(t string) {
+	tier = t
 	cfg = pipeline.DefaultConfig()
 	gen = pipeline.Generator(cfg)
 }
@@ -161,6 +164,9 @@ func lineMutate(c *explore.Chooser, lines []string, tag string) ([]string, strin
 
 func mutateBody(names model.ValidationScheme, pairs bool) explore.Body {
 	return func(c *explore.Chooser) *explore.Case {
+		if pairs && tier != "thorough" {
+			return &explore.Case{Skip: true}
+		}
 		bi := c.Free(len(bases), "base")
 		base := bases[bi]
 		class := c.Free(3, "class") // 0 line, 1 byte insert, 2 byte delete
@@ -219,9 +225,10 @@ func main() {
 	unb := func(string) int { return -1 }
 	spaces := []*explore.Space{
 		{Name: "semantic-utf8", Body: semantic(model.UTF8Validation), Bound: semBound, Setup: setup},
-		{Name: "semantic-legacy", Body: semantic(model.LegacyValidation), Bound: func(t string) int { return 2 }, Setup: setup},
+		{Name: "semantic-legacy", Body: semantic(model.LegacyValidation), Bound: semBound, Setup: setup},
 		{Name: "mutate-utf8", Body: mutateBody(model.UTF8Validation, false), Bound: unb, Setup: setup},
 		{Name: "mutate-legacy", Body: mutateBody(model.LegacyValidation, false), Bound: unb, Setup: setup},
+		{Name: "mutate-line-pairs-utf8", Body: mutateBody(model.UTF8Validation, true), Bound: unb, Setup: setup},
 	}
 	explore.Main(&explore.Config{
 		Property: "C01", Level: "exploration",
